@@ -17,8 +17,12 @@ open Rpyc Rpyc.Calls Rpyc.Forward
 /-! ### the model's request table is the source's (generated: observed by running the real methods of netref.py / helpers.py against a recording connection) -/
 
 /-- `BaseNetref` has no `__getattr__`: Python would call it after every `__getattribute__` that raised AttributeError, and
-a forwarding `__getattr__` evaluates a failing attribute read on the target a second time -/
-theorem no_second_attribute_request : Gen.Netref.baseMethods.contains "__getattr__" = false := by decide
+a forwarding `__getattr__` evaluates a failing attribute read on the target a second time.  Observed as well: ONE
+`getattr(proxy, name)` through the interpreter, on a connection that answers AttributeError, costs exactly one
+`HANDLE_GETATTR` request - a retry anywhere would show as a second row -/
+theorem no_second_attribute_request :
+    Gen.Netref.baseMethods.contains "__getattr__" = false
+    ∧ Gen.Netref.failingReadRequests = ["syncreq HANDLE_GETATTR self $1"] := by decide
 
 /-- every request a `BaseNetref` method issues: handler and argument pattern (`$k` = k-th argument) -/
 theorem base_requests_are_modelled :
